@@ -14,5 +14,6 @@ rl.on('line', line => { if(!line.trim())return;
   catch (e) { if (e && e.code==='ERR_SCRIPT_EXECUTION_TIMEOUT') { out.status='budget'; } else { out.status='err';
       // error objects of any realm have string name/message/stack; anything else is a thrown non-error
       out.err = (e !== null && typeof e === 'object' && typeof e.name==='string' && typeof e.message==='string' && typeof e.stack==='string') ? e.name : 'Thrown'; } }
-  console.log(JSON.stringify(out));
+  // programs marked /*async*/ are observed after their promise reactions have run (the log array is shared)
+  if (v.src.includes('/*async*/')) setImmediate(() => console.log(JSON.stringify(out))); else console.log(JSON.stringify(out));
 });
